@@ -231,3 +231,27 @@ def shrink_recipe(rc):
         yield ['str', 'a']
     elif t not in ('none',):
         yield ['none']
+
+
+def hash_order_free(rc, sort_keys=True):
+    """A copy of the recipe whose dump text cannot depend on the hash seed: sets with several members
+    get members of one family (str), so that they are always sorted; with sort_keys=False sets keep one
+    member only.  (Checks other than C16 must be replayable under any PYTHONHASHSEED.)"""
+    t = rc[0]
+    if t == 'set':
+        members, seen = [], set()
+        for m in rc[1]:
+            mm = m if m[0] == 'str' else ['str', repr(m[1:])]
+            if mm[1] not in seen:
+                seen.add(mm[1])
+                members.append(mm)
+        if not sort_keys:
+            members = members[:1]
+        return [t, members, rc[2]]
+    if t in ('list', 'tuple'):
+        return [t, [hash_order_free(x, sort_keys) for x in rc[1]], rc[2]]
+    if t == 'dict':
+        return [t, [[k, hash_order_free(x, sort_keys)] for k, x in rc[1]], rc[2]]
+    if t == 'shared':
+        return [t, rc[1], hash_order_free(rc[2], sort_keys)]
+    return rc
